@@ -510,6 +510,10 @@ func (env *Env) call(e *Expr) SV {
 		return SV{T: sliceAcc(a.T, 3), Ty: it}
 	case "real":
 		return SV{T: ToReal(arg(0).T)}
+	case "i2f":
+		return SV{T: x.i2f(st, arg(0).T)}
+	case "fdiv", "fmul", "fadd", "fsub":
+		return SV{T: x.floatOp(st, e.Name, ToReal(arg(0).T), ToReal(arg(1).T))}
 	case "abs":
 		a := arg(0)
 		if a.T.Sort == SReal {
@@ -611,7 +615,7 @@ func (env *Env) call(e *Expr) SV {
 		n, _ := strconv.Atoi(e.Args[1].Lit)
 		k := env.ghostKey(fmt.Sprintf("#arg$%s$%d", e.Args[0].Lit, n))
 		if t, ok := st.ghost[k]; ok {
-			return SV{T: t}
+			return SV{T: t, Ty: x.argTypes[k]}
 		}
 		// a callee's own record, or no such call on this path: an unknown value (an equality
 		// with it is an unconstrained boolean, so a clause relying on it cannot be proved)
@@ -765,6 +769,11 @@ func (env *Env) lookupType(name string) types.Type {
 					t = o.Type()
 				}
 			}
+		}
+	}
+	if t == nil && pkgName == "" {
+		if o, ok := types.Universe.Lookup(typeName).(*types.TypeName); ok {
+			t = o.Type()
 		}
 	}
 	if t == nil {
